@@ -153,9 +153,9 @@ type sampleModel struct {
 	Name  string
 	Bytes []byte
 	// feed builder for a batch made of the given sample indices
-	Inputs map[string][]int // per input: shape with -1 at the batch axis
-	Batch  map[string]int   // per input: batch axis
-	OutBatch map[string]int // per output: batch axis
+	Inputs   map[string][]int // per input: shape with -1 at the batch axis
+	Batch    map[string]int   // per input: batch axis
+	OutBatch map[string]int   // per output: batch axis
 }
 
 func loadSample(name string) sampleModel {
